@@ -164,12 +164,12 @@ func rotatedPolicies(shift int) []namedPolicy {
 
 // planCheap (protocols that cost milliseconds per run): every policy; a replicated policy gets EVERY qualified quorum (minimal and
 // non-minimal) on keys from trusted dealing and from the Gennaro DKG (thorough: also Canetti and the runner API).
-func planCheap(shift int) []planItem {
+func planCheap(shift int, quickSrcs []int) []planItem {
 	out := []planItem{}
 	for pi, np := range rotatedPolicies(shift) {
 		rot := pi + shift + int(seed)
 		if isReplicated(np) {
-			srcs := []int{0, 1}
+			srcs := quickSrcs
 			if thor {
 				srcs = []int{0, 1, 2, 3}
 			}
